@@ -13,6 +13,7 @@ import logging
 import multiprocessing
 import multiprocessing.dummy
 import multiprocessing.pool
+import os
 import signal
 import sys
 import traceback
@@ -235,6 +236,20 @@ class ParallelRunner(BaseRunner):
     ) -> Union["DelayedException", LintedFile]:
         """Shim function used in parallel mode."""
         fname, task = partial_tuple
+        # Verification hook, inactive unless SQLFLUFF_VERIF=1: delay this worker
+        # by a seeded, per-file amount so tests can steer the completion order.
+        if os.environ.get("SQLFLUFF_VERIF") == "1" and os.environ.get(
+            "SQLFLUFF_VERIF_DELAY_SEED"
+        ):
+            import hashlib
+            import time
+
+            _digest = hashlib.sha256(
+                (
+                    os.environ["SQLFLUFF_VERIF_DELAY_SEED"] + os.path.basename(fname)
+                ).encode()
+            ).digest()
+            time.sleep((_digest[0] % 8) * 0.04)
         try:
             if isinstance(task, DeferredRenderTask):
                 # Worker-side rendering: reconstruct a Linter from the root
